@@ -296,7 +296,7 @@ var stepCounter int64
 // names the step).
 func Watchdog(o Options) {
 	if o.StepTimeout == 0 {
-		o.StepTimeout = 30 * time.Second
+		o.StepTimeout = 120 * time.Second
 	}
 	if o.MemLimit == 0 {
 		o.MemLimit = 3 << 30
